@@ -182,6 +182,22 @@ var classSan = regexp.MustCompile(`[^A-Za-z0-9_.-]+`)
 func runOnce(t *testing.T, w World, s *Script, name string) (out *Outcome) {
 	t.Run(name, func(t *testing.T) {
 		cryptotest.SetGlobalRandom(t, s.EntropySeed)
+		defer func() {
+			// A panic that escapes the executor (library code reached outside a
+			// Guard) is C04 matter like any other panic: counted, shown in the
+			// evidence, never a verdict of the property being checked.
+			if r := recover(); r != nil {
+				out = NewOutcome()
+				out.Panics = 1
+				out.Probe("panic_escaped_the_executor")
+				st := string(debug.Stack())
+				if len(st) > 1500 {
+					st = st[:1500]
+				}
+				out.PanicSample = fmt.Sprintf("escaped: %v\n%s", r, st)
+				out.FP.Step("escaped-panic")
+			}
+		}()
 		out = w.Execute(t, s)
 		if hook := RaceHook; hook != nil {
 			hook(t, s, out)
